@@ -11,6 +11,7 @@ from .stmt import *  # noqa
 from . import lib as _lib
 from . import absobj as _abs
 from . import libtorch as _lt
+from . import libimg as _li
 from .expr import to_int as _e_to_int
 
 REPO = os.environ.get("KAPPADATA_REPO", "/repo")
@@ -77,6 +78,7 @@ class Engine(ExprMixin, StmtMixin):
         self.cur_call_node = None
         _abs.install_spec_builtins(self)
         _lt.install_spec_builtins(self)
+        _li.install_spec_builtins(self)
 
     # ------------------------------------------------------------------ modules / classes
     def module(self, relpath):
@@ -340,6 +342,19 @@ class Engine(ExprMixin, StmtMixin):
                 return [(st, VSeq(sq.len * r, lambda i: sq.elem(i / r), sq.etype))]
             if attr == "item":
                 return [(st, sq.elem(z3.IntVal(0)))]
+            if attr == "roll":
+                sh = _e_to_int(eng.deref(kwargs.get("shifts", args[0] if args else None), st))
+                r = VSeq(sq.len, lambda k: sq.elem((k - sh) % sq.len), sq.etype)
+                r.kind = sq.kind
+                return [(st, r)]
+            if attr == "flip":
+                r = VSeq(sq.len, lambda k: sq.elem(sq.len - 1 - k), sq.etype)
+                r.kind = sq.kind
+                return [(st, r)]
+            if attr == "clone":
+                r = VSeq(sq.len, sq.elem, sq.etype, sq.concrete)
+                r.kind = sq.kind
+                return [(st, r)]
             if attr == "nonzero" and isinstance(sq.etype, TBool):
                 from .libtorch import seq_filter
                 r = seq_filter(st, eng, sq.len, lambda p: sq.elem(p).t, lambda p: VInt(p), INT, "nonzero")
@@ -347,7 +362,7 @@ class Engine(ExprMixin, StmtMixin):
                 if sq.kind is not None and z3.is_int_value(sq.kind) and sq.kind.as_long() == 2:
                     return [(st, VTuple([r]))]          # numpy: tuple of index arrays
                 return [(st, r)]
-            if attr in ("long", "clone", "int", "contiguous"):
+            if attr in ("long", "int", "contiguous"):
                 return [(st, sq)]
             if attr == "squeeze":
                 return [(st, sq)]
